@@ -103,6 +103,8 @@ def blend_cases(rng):
                 ('RandomSizedBBoxSafeCrop', dict(height=t[0], width=t[1], depth=t[2]), 'bboxes'),
                 ('Rotate', dict(limit=(20, 40), border_mode='constant', value=0, mask_value=0), None),
                 ('ShiftScaleRotate', dict(border_mode='constant', value=0, mask_value=0), None),
+                ('Rotate', dict(limit=(20, 40), border_mode='constant', value=0, mask_value=0, crop_to_border=True, axes=rng.choice(['xy', 'yz', 'xz'])), None),
+                ('ShiftScaleRotate', dict(border_mode='constant', value=0, mask_value=0, crop_to_border=True, scale_limit=(0.2, 0.4)), None),
                 ('CropAndPad', dict(px=(-1, 2, 1, -2, 1, 1), keep_size=True, pad_cval=0, pad_cval_mask=0), None),
                 ('SetPixelSpacing', dict(space_x=0.5, space_y=0.6), 'dicom')]
         for cls, args, needs in cfgs:
